@@ -9,7 +9,7 @@ That the search returns a minimum and terminates for every tightening schedule i
 import ast
 
 from ..astx import walk_no_nested, dotted, call_name, self_attr, func_params, dominating_conditions, flatten_conditions, \
-    terminates, parent
+    terminates, parent, ancestors
 from ..core import norm, Inconclusive
 from .. import pat
 from ..typestate import ClassAnalysis
@@ -89,7 +89,15 @@ def r17a(ctx):
             and dotted(t.func.value) == treev and (p_.lineno > w.lineno or any(p_ in list(ast.walk(d)) for d in closures.values()))
     all_adds = adds + [a for c in closure_calls for a in closure_adds[c.func.id]]
     ok = all_adds and all(only_overlap_guard(c) for c in all_adds)
-    if ok and len(adds) + len(closure_calls) == 2:
+
+    def times(c):
+        # a re-insertion written once inside `for x in (a, b):` happens once per element of the literal
+        k_ = 1
+        for a_ in ancestors(c):
+            if isinstance(a_, ast.For) and isinstance(a_.iter, (ast.Tuple, ast.List)) and a_.lineno > w.lineno:
+                k_ *= len(a_.iter.elts)
+        return k_
+    if ok and sum(times(c) for c in adds + closure_calls) == 2:
         ctx.proved("R17a", f.file, "make_distinct", all_adds[0], "re-insert only if overlapping",
                    "each refined interval goes back into the tree only if it still overlaps another interval")
     else:
@@ -250,9 +258,12 @@ def r17c(ctx):
     w = next((x for x in walk_no_nested(lt.node) if isinstance(x, ast.While)), None)
     ok = False
     if w is not None:
-        t = nrm(w.test)
-        ok = t == (f"notself.bounded.bounds.dominates{o}.bounded.boundsor{o}.bounded.bounds.dominatesself.bounded.bounds"
-                   f"andself.bounded.tighten_boundsor{o}.bounded.tighten_bounds")
+        # as a set of signed conjuncts, so `not (A or B) and C` and `not A and not B and C` read the same
+        facts = {(nrm(t_), pol) for t_, pol in flatten_conditions([(w.test, True, None)])}
+        ok = facts in ({(f"self.bounded.bounds.dominates{o}.bounded.bounds", False), (f"{o}.bounded.bounds.dominatesself.bounded.bounds", False),
+                        (f"self.bounded.tighten_boundsor{o}.bounded.tighten_bounds", True)},
+                       {(f"self.bounded.bounds.dominates{o}.bounded.bounds", False), (f"{o}.bounded.bounds.dominatesself.bounded.bounds", False),
+                        (f"{o}.bounded.tighten_boundsorself.bounded.tighten_bounds", True)})
     r = next((x for x in lt.node.body if isinstance(x, ast.Return)), None)
     rok = r is not None and nrm(r.value).startswith(f"self.bounded.bounds.dominates{o}.bounded.bounds")
     if ok and rok:
@@ -279,7 +290,9 @@ def r17d(ctx):
                      "anywhere else a cheaper definitive candidate can be thrown away and the search ends on a non-minimum")
     q = m.need_class("IterativeTighteningSearch")
     f = m.method(q, "tighten_bounds")
-    clears = [c for c in walk_no_nested(f.node) if isinstance(c, ast.Call) and isinstance(c.func, ast.Attribute) and c.func.attr == "clear"
+    from ..astx import inline_stmt_calls
+    flat = inline_stmt_calls(m, q, f.node)      # `self._clear()`-style helpers are judged where they are called
+    clears = [c for c in walk_no_nested(flat) if isinstance(c, ast.Call) and isinstance(c.func, ast.Attribute) and c.func.attr == "clear"
               and self_attr(c.func.value) in ("_tightened", "_untightened")]
     ctx.floor("R17d", len(clears), 4, "heap clears in IterativeTighteningSearch.tighten_bounds")
     for c in clears:
@@ -320,7 +333,8 @@ def r17e(ctx):
                 from ..astx import resolve_local
                 vals = r.value.values if isinstance(r.value, ast.BoolOp) and isinstance(r.value.op, ast.Or) else []
                 from ..astx import inline_self_call
-                vals = [inline_self_call(m, q, resolve_local(f.node, v)) for v in vals]
+                from ..astx import inline_call
+                vals = [inline_call(m, q, f.node, v) for v in vals]
                 ok = any(any(isinstance(c_, ast.Compare) and any(e in ast.unparse(c_) for e in entry) for c_ in ast.walk(v)) for v in vals)
                 if ok:
                     ctx.proved("R17e", f.file, "IterativeTighteningSearch.tighten_bounds", r, "goal reports progress",
